@@ -14,7 +14,8 @@ from vlib import ToolError, log
 
 EXT = {"ts": ".ts", "dts": ".d.ts", "tsx": ".tsx"}
 # nested directories, the same base name everywhere (generated identifiers are built from the paths)
-FPATH = {"entry": "entry", "m1": "a/b/t", "m2": "a/c/t", "m3": "c/t", "hop": "hop"}
+# (a/b/t.ts and a_b/t.ts differ only in a separator that generated identifiers replace by "_")
+FPATH = {"entry": "entry", "m1": "a/b/t", "m2": "a/c/t", "m3": "a_b/t", "hop": "hop"}
 
 
 def spec_from(frm, to):
@@ -144,7 +145,7 @@ def render(L):
 
     for d in ["B", "A", "G", "k", "E", "E2", "E3"]:
         files[place[d]].append(decl(d))
-    root = f'type T = {{ a: {ref("T", "A")}; b: {ref("T", "B")}; k: typeof {ref("T", "k")}; g: {ref("T", "G")}<{ref("T", "B")}>; e: {ref("T", "E")}.P; f: {ref("T", "E2")}.P; g3: {ref("T", "E3")}.P }};'
+    root = f'type T = {{ a: {ref("T", "A")}; b: {ref("T", "B")}; k: typeof {ref("T", "k")}; g: {ref("T", "G")}<{ref("T", "B")}>; e: {ref("T", "E")}.P; f: {ref("T", "E2")}.P; g3: {ref("T", "E3")}.P; ev: typeof {ref("T", "E")}.Q }};'
     files["entry"].append(root)
     files["entry"].append("parse.buildParsers<{ T: T }>();")
     if exp["k"] == "defaultExpr" and place["k"] != "entry":
@@ -218,7 +219,7 @@ def run(prop, tier):
     ]
     S = lambda x: {"k": "str", "s": x}
     for q in probes[len(common):]:
-        q["ps"] += [{"key": "e", "v": S("p")}, {"key": "f", "v": S("fp")}, {"key": "g3", "v": S("gp")}]
+        q["ps"] += [{"key": "ev", "v": S("q")}, {"key": "e", "v": S("p")}, {"key": "f", "v": S("fp")}, {"key": "g3", "v": S("gp")}]
     swapped = copy.deepcopy(probes[len(common)])
     swapped["ps"][-3:] = [{"key": "e", "v": S("fp")}, {"key": "f", "v": S("p")}, {"key": "g3", "v": S("gp")}]
     same = copy.deepcopy(probes[len(common)])
